@@ -20,6 +20,7 @@ import (
 	"runtime"
 	"slices"
 	"sort"
+	"strconv"
 	"strings"
 	"sync"
 	"testing/synctest"
@@ -106,6 +107,7 @@ type RespPlan struct {
 	LateTrailer [][2]string // trailers the handler did not announce in the Trailer header (sent with http.TrailerPrefix)
 	Early       [][2]string // header fields of a 103 (Early Hints) informational response sent before the final one
 	NoCL        bool
+	HoldEnd     bool // the handler parks at a yield point after its last (flushed) body byte, before it returns
 }
 
 type BackendReq struct {
@@ -121,6 +123,7 @@ type BackendReq struct {
 	RemoteAddr string
 	Step       int // controller decision during which it arrived
 	ConnName   string
+	Tunnel     []byte // bytes received on the tunnel after a protocol upgrade (Upgrade: verif-echo)
 }
 
 type Decision struct {
@@ -627,6 +630,43 @@ func (x *extraInjector) GetHeaderValue(r *http.Request) (string, error) {
 
 // --------------------------------------------------------------- back-end
 
+// backendTunnel answers a protocol upgrade with 101 and echoes every byte of the tunnel back
+// until the peer goes away; with X-Hangup: n it hangs up itself once n bytes have been echoed.
+func (w *World) backendTunnel(rw http.ResponseWriter, r *http.Request, rec *BackendReq) {
+	hj, ok := rw.(http.Hijacker)
+	if !ok {
+		rw.WriteHeader(500)
+		return
+	}
+	conn, brw, err := hj.Hijack()
+	if err != nil {
+		return
+	}
+	defer conn.Close()
+	hang, _ := strconv.Atoi(r.Header.Get("X-Hangup"))
+	fmt.Fprintf(brw, "HTTP/1.1 101 Switching Protocols\r\nConnection: Upgrade\r\nUpgrade: verif-echo\r\nX-Backend-Tag: %s\r\n\r\n", rec.Tag)
+	if brw.Flush() != nil {
+		return
+	}
+	buf := make([]byte, 4096)
+	total := 0
+	for hang == 0 || total < hang {
+		n, err := brw.Read(buf)
+		if n > 0 {
+			w.mu.Lock()
+			rec.Tunnel = append(rec.Tunnel, buf[:n]...)
+			w.mu.Unlock()
+			total += n
+			if _, werr := conn.Write(buf[:n]); werr != nil {
+				return
+			}
+		}
+		if err != nil {
+			return
+		}
+	}
+}
+
 func (w *World) backendHandler(rw http.ResponseWriter, r *http.Request) {
 	var body []byte
 	var err error
@@ -647,6 +687,10 @@ func (w *World) backendHandler(rw http.ResponseWriter, r *http.Request) {
 	w.BackReqs = append(w.BackReqs, rec)
 	w.mu.Unlock()
 
+	if r.Header.Get("Upgrade") == "verif-echo" {
+		w.backendTunnel(rw, r, rec)
+		return
+	}
 	rp := w.Plan.Backend.Resp[rec.Tag]
 	if rp != nil && rp.Hold {
 		w.Yield("backend:" + rec.Tag)
@@ -718,6 +762,13 @@ func (w *World) backendHandler(rw http.ResponseWriter, r *http.Request) {
 			}
 		}
 		rw.Write(rest)
+	}
+	if rp.HoldEnd {
+		// the whole body is out; the end of the response (terminating chunk / END_STREAM) is not
+		if fl, ok := rw.(http.Flusher); ok {
+			fl.Flush()
+		}
+		w.Yield("backend-end:" + rec.Tag)
 	}
 	for _, kv := range rp.Trailer {
 		h.Add(kv[0], kv[1])
